@@ -275,7 +275,7 @@ def run(sc, chooser=None, raise_plan=None, keep_trace=False):
                                 max_steps=sc.get("max_steps", 6000))
     raise_plan = raise_plan or {}
     out = {"handler_log": [], "requestors": [], "raw": []}
-    with S.World(chooser, max_steps=sc.get("max_steps", 6000)) as w:
+    with S.World(chooser, max_steps=sc.get("max_steps", 6000), quantum=sc.get("quantum", S.QUANTUM)) as w:
         w.keep_trace = keep_trace
         acc = sc["acceptor"]
         rec_acc = Recorder(w, "acceptor", raise_plan.get("acceptor"))
@@ -292,6 +292,9 @@ def run(sc, chooser=None, raise_plan=None, keep_trace=False):
             if acc.get("require_calling"):
                 acc_ae.require_calling_aet = list(acc["require_calling"])
             handlers = _acceptor_handlers(w, acc.get("handlers", {}), out["handler_log"]) + rec_acc.handlers()
+            if acc.get("extra_handlers"):
+                over = {e for e, _ in acc["extra_handlers"]}
+                handlers = [h for h in handlers if h[0] not in over] + list(acc["extra_handlers"])
             w.serve(acc_ae, PORT, handlers=handlers)
             out["_acc_ae"] = acc_ae
             if acc.get("shutdown_at") is not None:
@@ -303,6 +306,14 @@ def run(sc, chooser=None, raise_plan=None, keep_trace=False):
                     out["shutdown_done"] = round(w.now - 1000.0, 4)
 
                 w.spawn(shutdown, "acc-shutdown")
+            if acc.get("release_at") is not None:
+                def releaser():
+                    S.VTime.sleep(acc["release_at"])
+                    for a in acc_ae.active_associations:
+                        a.release()
+                    out["release_done"] = round(w.now - 1000.0, 4)
+
+                w.spawn(releaser, "acc-release")
         else:
             def on_conn(sock, addr, script=acc["script"]):
                 peer = S.RawPeer(w, script, sock=sock)
